@@ -441,6 +441,7 @@ func C05() *engine.Check {
 			c04RealSub("real-clock-completeness", "complete", 3, 6),
 			c04RealSubZ("real-clock-zone-west-completeness", "complete", 2, 3, time.FixedZone("verif-west", -11*3600), 2*time.Hour),
 			c04RealSubZ("real-clock-zone-east-completeness", "complete", 2, 3, time.FixedZone("verif-east", 13*3600+1800), 2*time.Hour),
+			c04RealEnvSub("real-clock-hostile-environment-completeness", "complete"),
 		},
 		Assumptions: []string{
 			"the completeness direction of the C01-C04 universes is charged here: whenever the reference says no rule is violated the implementation must allow",
